@@ -42,6 +42,8 @@ TABLE = [
     ("C19", "rand", [], "TV_Rand", None),
     ("C05x", "vary", [], "TV_Vary", 300),
     ("C07x", "stats", [], "TV_Stats", 200),
+    ("C15x", "meshb", [], "TV_MeshB", 300),
+    ("C11x", "rect", None, "TV_Rect", None),
 ]
 MAXREC = 400
 # record fields that re-encode the ARGUMENTS of the call (decoded f32 records, echoed inputs):
@@ -100,8 +102,16 @@ def run_one(pid, sub, extra, tv, n):
     binpath = vf.build_harness()
     d = vf.outdir("selftest")
     cases = os.path.join(d, "%s_%s.ndjson" % (pid, sub))
-    args = [sub, "gen", "--seed", 3, "--tier", "quick"] + (["--n", n] if n else []) + extra
-    vf.run_harness(binpath, args, stdout_path=cases)
+    if extra is None:
+        # rect: pairs of rects (the real check takes them from MC_Rect)
+        sides = [-99, 0, 1, 3]
+        rr = random.Random(5)
+        with open(cases, "w") as f:
+            for i in range(300):
+                f.write(json.dumps({"k": "r%d" % i, "a": [rr.choice(sides) for _ in range(4)], "b": [rr.choice(sides) for _ in range(4)]}) + "\n")
+    else:
+        args = [sub, "gen", "--seed", 3, "--tier", "quick"] + (["--n", n] if n else []) + extra
+        vf.run_harness(binpath, args, stdout_path=cases)
     # keep the case file small
     lines = open(cases).read().splitlines()
     if len(lines) > MAXREC:
